@@ -115,8 +115,7 @@ def showObs (d : Decl) : String :=
     "len=" ++ toString (length s),
     "keys=" ++ showList ((keys s).map encCps),
     "items=" ++ showList ((range (-(n + 1)) (n + 1)).map (fun i => encCps (item s i))),
-    "text=" ++ encCps (cssText s),
-    "ptext=" ++ encCps (cssTextP SPrefs.default REnv.default s),
+    "text=" ++ encCps (cssTextP SPrefs.default REnv.default s),
     "ro=" ++ (if d.readonly then "1" else "0")]
 
 def showVObs (v : Vars) : String :=
@@ -286,6 +285,7 @@ def step (st : St) (line : String) : St × String :=
     | none => bad st
   | ["vobs"] => (st, showVObs st.v)
   | ["pdef"] => (st, showPrefs SPrefs.default)
+  | ["pmin"] => (st, showPrefs minifiedPrefs)
   | "prefs" :: ws => match decPrefs ws with
     | some p => ({ st with prefs := p, vts := [], valids := [] }, "ok")
     | none => bad st
